@@ -148,7 +148,7 @@ func rtcpBytes(k int, ssrc uint32) []byte {
 	case 2:
 		pkts = []rtcp.Packet{&rtcp.TransportLayerNack{SenderSSRC: 77, MediaSSRC: ssrc, Nacks: []rtcp.NackPair{{PacketID: uint16(k), LostPackets: 0x5}}}}
 	case 3:
-		pkts = []rtcp.Packet{&rtcp.TransportLayerCC{SenderSSRC: 77, MediaSSRC: ssrc, BaseSequenceNumber: uint16(k), PacketStatusCount: 2,
+		pkts = []rtcp.Packet{&rtcp.TransportLayerCC{Header: rtcp.Header{Count: rtcp.FormatTCC, Type: rtcp.TypeTransportSpecificFeedback, Length: 5}, SenderSSRC: 77, MediaSSRC: ssrc, BaseSequenceNumber: uint16(k), PacketStatusCount: 2,
 			ReferenceTime: uint32(k), FbPktCount: uint8(k),
 			PacketChunks: []rtcp.PacketStatusChunk{&rtcp.RunLengthChunk{PacketStatusSymbol: rtcp.TypeTCCPacketReceivedSmallDelta, RunLength: 2}},
 			RecvDeltas:   []*rtcp.RecvDelta{{Type: rtcp.TypeTCCPacketReceivedSmallDelta, Delta: 250}, {Type: rtcp.TypeTCCPacketReceivedSmallDelta, Delta: 500}}}}
